@@ -28,6 +28,7 @@ Trusted mapping of primitives (file system = the model FS of Path.v; `f` is the 
   p.exists()                                     -> sys_exists f p        = sys_ok p && Path.exists_ f p
   fs::create_dir_all(p)                          -> sys_create_dir_all f p = Path.create_dir_all f p when sys_ok p, else error
   fs::canonicalize(p)                            -> Path.canonicalize f p
+  fs::create_dir(p)                              -> PathDir.sys_create_dir f p  (mkdir: parent resolved, last component must not exist)
   a.starts_with(b)                               -> Path.prefixb b a
   fs::symlink_metadata(p).is_ok_and(|m| m.file_type().is_symlink())  -> Path.sys_is_symlink f p
   File::create(p)                                -> Path.sys_file_create f p   (the File is the physical path it refers to)
@@ -268,6 +269,15 @@ class XTr:
                 c2.state["f"] = f1
                 return "match sys_create_dir_all %s %s with\n    | (%s, true) =>\n    %s\n    | (%s, false) => %s\n    end" % (
                     f, p.text, f1, k(V("tt", "unit"), c2), f1, c2.exit(c2, "Err EIo"))
+            if fn == "fs::create_dir" and len(args) == 1:
+                p = self.pe(args[0], c)
+                if p.kind != "path":
+                    raise ParseError("create_dir argument")
+                f1 = self.fresh("f")
+                c2 = c.copy()
+                c2.state["f"] = f1
+                return "match sys_create_dir %s %s with\n    | Some %s =>\n    %s\n    | None => %s\n    end" % (
+                    f, p.text, f1, k(V("tt", "unit"), c2), c.exit(c, "Err EIo"))
             if fn == "fs::canonicalize" and len(args) == 1:
                 p = self.pe(args[0], c)
                 if p.kind != "path":
@@ -1013,11 +1023,33 @@ def item_extract(src, consts):
     c.exit = lambda cc, res: "(%s, %s)" % (cc.state["f"], res)
     # the per-name loop threads the reader too
     g = tr.stmts(rest, body[2], c, None)
+    # work package fixcli: the prologue statements 5-6 TRANSLATED (not only checked for shape), with the call of
+    # extract_body as their continuation: `output_dir` is the -o argument, shadowed by its canonical form
+    tr2 = XTr(dict(consts, __item="extract"))
+    c2 = Ctx()
+    c2.locals = dict(c.locals)
+    c2.state = {"f": "f", "mla": "mla"}
+    c2.exit = lambda cc, res: "(%s, %s)" % (cc.state["f"], res)
+    def after_prologue(cc):
+        od = cc.locals["output_dir"]
+        if od.kind != "path":
+            raise ParseError("extract prologue: output_dir is not a path")
+        return "extract_body mla %s file_name_matcher verbose %s" % (od.text, cc.state["f"])
+    try:
+        g2 = tr2.stmts(items[4:6], None, c2, after_prologue)
+        if tr2.extra:
+            raise ParseError("extract prologue: unexpected auxiliary definitions")
+        prologue = ("(* mlar/src/main.rs:%d fn extract, from `if !output_dir.exists()` on: create_dir of a missing output directory,\n"
+                    "     canonicalize, then the rest (extract_body).  open_mla_file (before it) is Cli.cli_open. *)\n"
+                    "  Definition extract_from_open (mla : ArchiveReader) (output_dir : path) (file_name_matcher : Matcher) (verbose : bool) (f : fs) : fs * res unit :=\n    %s."
+                    % (r[1], g2))
+    except ParseError as e:
+        prologue = "(* extract prologue: %s *)\n  Definition extract_from_open_untranslatable : unit := tt." % str(e).replace("*)", "* )")
     return "\n  ".join([RUN_WRITERS] + tr.extra + [
         "(* mlar/src/main.rs:%d fn extract, from `let mut iter` on (prologue checked: matcher, output_dir, verbose, open_mla_file,\n"
         "     create_dir if missing, canonicalize) *)\n"
         "  Definition extract_body (mla : ArchiveReader) (output_dir : path) (file_name_matcher : Matcher) (verbose : bool) (f : fs) : fs * res unit :=\n    %s."
-        % (r[1], g)])
+        % (r[1], g), prologue])
 
 
 SECTION_HEAD = r"""
@@ -1040,7 +1072,7 @@ Section CliSrc.
 
 def generate():
     out = ["(* GENERATED by tools/src2v3_cli.py from %s — do not edit. *)" % REPO,
-           "From MLA Require Import Base Stream Blocks Path Pool.", "From MLAGen Require Src3d Src3l.", "Open Scope N_scope.", PREAMBLE]
+           "From MLA Require Import Base Stream Blocks Path PathDir Pool.", "From MLAGen Require Src3d Src3l.", "Open Scope N_scope.", PREAMBLE]
     src = read_file("mlar/src/main.rs")
     consts = {}
     def emit(name, fn):
